@@ -1,10 +1,18 @@
 import YakModel.Proofs.ScanLanding
 import YakModel.Proofs.ScanExamples
 import YakModel.Proofs.ScanNodes
+import YakModel.Proofs.ScanR2L
+import YakModel.Proofs.ScanCover
+import YakModel.Proofs.ScanFence
 /-!
 # The lemmas the property files C03 and C05 refer to
 
-`insert_bumps_landing`, `get_miss_reports_landing` (ScanLanding), `D2_counterexample`,
-`D5_counterexample` (ScanExamples), `scan_status_ok`, `scan_spec_fwd` (ScanSpec),
-`scan_inf_ignores_key`, `scan_nodes_nonempty` (ScanNodes).
+* `insert_bumps_landing`, `get_miss_reports_landing` — ScanLanding
+* `D2_counterexample`, `D5_counterexample`, `r2l_max_fence_counterexample` — ScanExamples
+* `scan_status_ok`, `scan_spec_fwd` — ScanSpec (endpoint lemmas: ScanKeys, ScanEnds; defining
+  equations of the mutual recursion: ScanSteps)
+* `scan_spec` (with `NoMaxFence` for right-to-left) — ScanR2L
+* `scan_inf_ignores_key`, `scan_nodes_nonempty` — ScanNodes
+* `scan_nodes_cover` — ScanCover
+* `noMaxFence_empty`, `noMaxFence_put`, `noMaxFence_remove` — ScanFence
 -/
